@@ -46,7 +46,10 @@ func Stats(logFileName, dbFileName string, sc StatsConfig) error {
 	var lastLogDate time.Time
 
 	countLog := 0
-	if err = parser.ParseFileCallback(logFileName, sc.ParserConfig, func(n *shared.ParserNode, _ error) (stop bool, cbError error) {
+	if err = parser.ParseFileCallback(logFileName, sc.ParserConfig, func(n *shared.ParserNode, parseErr error) (stop bool, cbError error) {
+		if parseErr != nil {
+			return true, parseErr
+		}
 		lastLogDate, err = time.Parse(sc.ReporterConfig.DateFormat, n.Header)
 		if err == nil {
 			if firstLogDate.IsZero() {
@@ -60,7 +63,10 @@ func Stats(logFileName, dbFileName string, sc StatsConfig) error {
 	}
 
 	countDb := 0
-	if err = parser.ParseFileCallback(dbFileName, sc.ParserConfig, func(n *shared.ParserNode, _ error) (stop bool, cbError error) {
+	if err = parser.ParseFileCallback(dbFileName, sc.ParserConfig, func(n *shared.ParserNode, parseErr error) (stop bool, cbError error) {
+		if parseErr != nil {
+			return true, parseErr
+		}
 		countDb++
 		return false, nil
 	}); err != nil {
